@@ -95,6 +95,12 @@ Fixpoint grouped_objects (m : mem) (ids : list Z) (acc : list (Z * list Z)) : li
       end
   end.
 
+(* how the signing options resolve to the option given to AddObject:
+   OptSignDeterministic wins over OptSignWithTime (Signer.Sign) *)
+Definition sign_topt (det : bool) (tf : option Z) : topt :=
+  if det then TDeterministic
+  else match tf with Some t => TExplicit t | None => TDefault end.
+
 Record sopts := mkSO {
   so_groups : list Z;              (* OptSignGroup, in call order *)
   so_objects : list (list Z);      (* OptSignObjects, in call order; never empty lists *)
